@@ -593,12 +593,13 @@ func w7AscHexLength(p *model.Prog, r *report.Result, rule string) {
 
 // w7WaitChanBuffered: a dispose that reports on a channel does not wait for a reader.
 func w7WaitChanBuffered(p *model.Prog, r *report.Result, rule string) {
-	r.Rule(rule, "every channel lal stores into the waitChan field of rtsp.BaseInSession, BaseOutSession, PullSession and PushSession is made with a constant capacity >= 1: dispose() sends its one result inside sync.Once and must return whether or not anybody receives - the server side of several session kinds has no reader, and Dispose is called under Group.mutex / ServerManager.mutex (kick, liveness sweep, shutdown)")
+	r.Rule(rule, "every channel lal stores into the waitChan field of rtsp.BaseInSession, BaseOutSession, PullSession and PushSession, and into logic.Group.exitChan, is made with a constant capacity >= 1: dispose() sends its one result inside sync.Once and must return whether or not anybody receives - the server side of several session kinds has no reader, and Dispose is called under Group.mutex / ServerManager.mutex (kick, liveness sweep, shutdown)")
 	n := 0
 	wait := map[*types.Var]bool{}
 	for _, t := range []string{"BaseInSession", "BaseOutSession", "PullSession", "PushSession"} {
 		wait[p.Field("pkg/rtsp", t, "waitChan")] = true
 	}
+	wait[p.Field("pkg/logic", "Group", "exitChan")] = true // Group.Dispose sends on it; a second Dispose (shutdown, then the tick) must not block
 	for _, fn := range p.LalFuncs() {
 		model.EachInstr(fn, func(in ssa.Instruction) {
 			st, ok := in.(*ssa.Store)
@@ -618,8 +619,8 @@ func w7WaitChanBuffered(p *model.Prog, r *report.Result, rule string) {
 			r.Check(isK && k >= 1, rule, fkey(fn, "wait-chan", "buffered"), p.InstrPos(st), "capacity >= 1", "the session's waitChan is unbuffered: dispose() blocks in its send until somebody receives; where nobody does (the server-side RTSP subscriber) a kick or the liveness sweep hangs holding the group and server locks")
 		})
 	}
-	if n < 4 {
-		r.Bad(rule, "floor", "", fmt.Sprintf("only %d waitChan constructions found", n))
+	if n < 5 {
+		r.Bad(rule, "floor", "", fmt.Sprintf("only %d waitChan / exitChan constructions found", n))
 	}
 }
 
